@@ -71,7 +71,11 @@ func (this *Server) JoinCluster() error {
 func (this *Server) setup() error {
 	var err error
 
-	this.db, err = badger.Open(badger.LSMOnlyOptions(path.Join(this.config.DataDir, "anndb")).WithLogger(log.New()))
+	// A process that dies in the middle of a write leaves a partial record at the
+	// end of Badger's value log. Writes are synced before they are reported as
+	// done, so that record belongs to a write nobody was answered for: let Open
+	// cut it off instead of refusing to open the database.
+	this.db, err = badger.Open(badger.LSMOnlyOptions(path.Join(this.config.DataDir, "anndb")).WithLogger(log.New()).WithTruncate(true))
 	if err != nil {
 		return err
 	}
